@@ -127,7 +127,7 @@ theorem publish_getF_objs (s : State) (now t : Nat) :
 
 /-- the descriptor created by the `k`-th publication -/
 def pubDesc (s : State) : FileDesc :=
-  { key := s.fdts.length, isFdt := true, fdtId := s.fdtid,
+  { key := s.fdts.length, isFdt := true, fdtId := s.fdtid % 1048576,
     content := (match s.cfg.mode with | .full => s.files | .being => s.files.filter (isTransferring s)),
     prio := 0, nSym := tblGet s.fdtPkts s.fdts.length, maxCount := 1, carousel := some s.cfg.fdtCarousel,
     target := none, allowStop := false, published := true, info := {} }
@@ -217,6 +217,11 @@ theorem Wf.publish {s : State} {L : Held} (now : Nat) (h : Wf s L) : Wf (publish
       have := (h.fdtKeys f (getF_mem hf)).1
       rw [getF_key hf] at this
       omega
+
+theorem Wf.publishTry {s : State} {L : Held} (now : Nat) (h : Wf s L) : Wf (Sched.publishTry s now) L := by
+  rcases publishTry_cases s now with e | e
+  · rw [e]; exact Wf.publish now h
+  · rw [e]; exact h
 
 /-! ### descriptor updates -/
 
@@ -598,7 +603,7 @@ theorem Wf.fileStart' {s : State} {L : Held} {prio now t : Nat} (tk : Nat) (c : 
   have := Wf.fileStartStep tk c hck h hfn
   unfold autoPublish
   split
-  · exact Wf.publish now this
+  · exact Wf.publishTry now this
   · exact this
 
 theorem Wf.fileStart {s : State} {L : Held} {prio now t : Nat} (tk : Nat)
